@@ -133,9 +133,32 @@ def _merged(m):
 
 def _gene(cs, gene_type=True, parent=None):
     L = lib()
-    return L["GeneInterval"]([mk_tx(i, c, parent) for i, c in enumerate(cs)],
-                             gene_type=L["Biotype"].protein_coding if gene_type else None, gene_id="g",
-                             parent_or_seq_chunk_parent=parent)
+    txs = [mk_tx(i, c, parent) for i, c in enumerate(cs)]
+    return _checked_members(txs, lambda ms: L["GeneInterval"](
+        list(ms), gene_type=L["Biotype"].protein_coding if gene_type else None, gene_id="g",
+        parent_or_seq_chunk_parent=parent))
+
+
+class OperandChanged(Exception):
+    """a member object handed to a collection constructor no longer answers as it did before the call"""
+
+
+def _member_view(m):
+    return (tuple(sorted(getattr(m, "feature_types", None) or ())), m.start, m.end, m.strand,
+            tuple((b.start, b.end) for b in m.chromosome_location.blocks), str(m.guid),
+            tuple(sorted((k, tuple(sorted(map(str, v)))) for k, v in (m.qualifiers or {}).items())))
+
+
+def _checked_members(members, build):
+    """build(members) with the members' own answers compared before / after (C20: aggregates are FUNCTIONS of the
+    children; a constructor that rewrites its children would make the next aggregate built from them wrong)"""
+    before = [_member_view(m) for m in members]
+    out = build(members)
+    after = [_member_view(m) for m in members]
+    if before != after:
+        i = next(k for k in range(len(members)) if before[k] != after[k])
+        raise OperandChanged(f"member {i}: {before[i]} -> {after[i]}")
+    return out
 
 
 def _eq(a, b):
@@ -195,7 +218,13 @@ def impl_agg_op(line):
             return f"ok {p} {len(flags)} " + " ".join("1" if f else "0" for f in flags)
         if op in ("fcoll", "fmf"):
             cs = t.children()
-            fc = L["FeatureIntervalCollection"]([mk_feat(i, c) for i, c in enumerate(cs)], feature_collection_id="fc")
+            feats = [mk_feat(i, c) for i, c in enumerate(cs)]
+            fc = _checked_members(feats, lambda ms: L["FeatureIntervalCollection"](list(ms), feature_collection_id="fc"))
+            if feats and op == "fcoll":
+                # history: a second collection over the first member alone reports that member's own types
+                sub = L["FeatureIntervalCollection"]([feats[0]], feature_collection_id="sub")
+                if sorted(sub.feature_types) != sorted(set(cs[0]["types"])):
+                    raise OperandChanged(f"sub-collection of member 0 has types {sorted(sub.feature_types)}")
             if op == "fmf":
                 return "ok " + _merged(fc.get_merged_feature())
             p = _idx(fc.feature_intervals, fc.get_primary_feature())
